@@ -59,8 +59,14 @@ def contracts():
                        for k in range(n)] + ['result == calls[0][2]'])
     c('def_', params=dict(name=TStr, func=TFunc(1), context=TVal),
       ensures=['result is context',
-               'len(calls) == 1 and calls[0][0] == "m.register_function" '
-               'and calls[0][1][0] == context',
+               # registered under the name the EXPRESSION gave (explicitly:
+               # a name left to register_function goes through the
+               # context's naming convention, and `def(my_func, ..) ->
+               # my_func(1)` would look for a function that was stored as
+               # myFunc); trailing underscores as in every lookup
+               'len(calls) == 1 and calls[0][0] == '
+               '"m.register_function$name" and calls[0][1][0] == context',
+               'calls[0][1][2] == name.rstrip("_")',
                # what is registered is the wrapper closed over THIS body
                'calls[0][1][1].closure_vars["func"] is func',
                # ... declared as a plain FUNCTION of that name and nothing
